@@ -443,6 +443,7 @@ def correspond(ctx):
     cgr_stream(ctx)
     history_stream(ctx)
     forwarding_stream(ctx)
+    locality_stream(ctx, [m for m in mols if 3 <= len(m[1]._atoms) <= 40][:40 if ctx.quick else 400])
     defaults_stream(ctx, [m for m in mols if 2 <= len(m[1]._atoms) <= 40][:30 if ctx.quick else 300])
 
     # folding on arbitrary ints, both copies of the loop
@@ -1415,6 +1416,105 @@ def forwarding_stream(ctx):
                               f'the stream cannot see this parameter')
 
 
+# ------------------------------------------------------------------------------------------------
+# locality of the Morgan identifiers (tie of `morgan_identifier_local` / `morgan_dict_local`)
+# ------------------------------------------------------------------------------------------------
+
+def _distances(mol, x):
+    dist, frontier = {x: 0}, [x]
+    while frontier:
+        nxt = []
+        for u in frontier:
+            for v in mol._bonds[u]:
+                if v not in dist:
+                    dist[v] = dist[u] + 1
+                    nxt.append(v)
+        frontier = nxt
+    return dist
+
+
+def locality_cases(ctx, mols):
+    """(name, molecule, perturbed copy, atom x, rounds r, kind): the copy differs from the molecule only outside the r-ball
+    of x — the data of an atom farther than r bonds away, or the order of a bond between two atoms both at distance >= r
+    (so every neighbour dict within r-1 bonds is untouched); kind 'inside' perturbs an atom at distance exactly r instead
+    (the identifier of r rounds is then expected to change — shows the radius in the theorem is sharp)"""
+    rng = ctx.rng
+    for name, mol in mols:
+        atoms = list(mol._atoms)
+        if len(atoms) < 3:
+            continue
+        x = rng.choice(atoms)
+        dist = _distances(mol, x)
+        for r in (0, 1, 2, 3):
+            far = [y for y in atoms if dist.get(y, 10 ** 6) > r]
+            rim = [y for y in atoms if dist.get(y) == r and (r > 0 or True)]
+            far_bonds = [(u, v) for u in atoms for v in mol._bonds[u] if u < v and dist.get(u, 10 ** 6) >= r
+                         and dist.get(v, 10 ** 6) >= r]
+            if far:
+                y = rng.choice(far)
+                c = mol.copy()
+                a = c._atoms[y]
+                k = rng.randrange(3)
+                if k == 0:
+                    a._charge = a._charge + (1 if a._charge < 3 else -1)
+                elif k == 1:
+                    a._is_radical = not a._is_radical
+                else:
+                    a._isotope = (a._isotope or 0) + 1 if a._isotope else 1 + a.atomic_number * 2
+                yield name, mol, c, x, r, 'far-atom'
+            if far_bonds and r >= 1:
+                u, v = rng.choice(far_bonds)
+                c = mol.copy()
+                b = c._bonds[u][v]
+                b._order = 1 + (int(b) % 3)
+                yield name, mol, c, x, r, 'far-bond'
+            if rim:
+                y = rng.choice(rim)
+                c = mol.copy()
+                c._atoms[y]._charge = c._atoms[y]._charge + (1 if c._atoms[y]._charge < 3 else -1)
+                yield name, mol, c, x, r, 'inside'
+
+
+def locality_stream(ctx, mols):
+    cases = list(locality_cases(ctx, mols))
+    lines = []
+    for name, mol, c, x, r, kind in cases:
+        lines.append(model_line('mdict', (r + 1, r + 1), wire.mol_to_line(mol)))
+        lines.append(model_line('mdict', (r + 1, r + 1), wire.mol_to_line(c)))
+    resp = run_driver('C17', lines) if ctx.build_ok else None
+    changed_inside = 0
+    for i, (name, mol, c, x, r, kind) in enumerate(cases):
+        try:
+            a, b = mol._morgan_hash_dict(r + 1, r + 1), c._morgan_hash_dict(r + 1, r + 1)
+        except Exception as e:  # noqa
+            ctx.broke('correspondence', '_morgan_hash_dict/locality', f'{name}: raised {type(e).__name__}')
+            continue
+        ctx.count(('locality', kind, r, x, wire.mol_to_line(c)), True)
+        ctx.dist('op:locality/' + kind)
+        if resp is not None:
+            for mm, real, rr in ((mol, a, resp[2 * i]), (c, b, resp[2 * i + 1])):
+                if parse_model('mdict', rr) != ('ok', [sorted(d.items()) for d in real]):
+                    ctx.cov['disagreements_checked'] += 1
+                    ctx.broke('correspondence', '_morgan_hash_dict', f'{name} (locality stream, radius {r + 1}) differs from the model')
+                    _remember(ctx, _shrink_note('mdict', (r + 1, r + 1), name, wire.mol_to_line(mm)), mm)
+        if kind == 'inside':
+            changed_inside += a[0][x] != b[0][x]
+            continue
+        if a[0][x] != b[0][x]:
+            ctx.cov['disagreements_checked'] += 1
+            exp = oracle_morgan(mol, r + 1, r + 1) == set(a[0].values()) and oracle_morgan(c, r + 1, r + 1) == set(b[0].values())
+            inp = {'kind': 'locality', 'mol': wire.mol_to_ints(mol), 'mol2': wire.mol_to_ints(c), 'atom': x, 'radius': r + 1}
+            if not exp:
+                ctx.fail('C17/morgan-set/_morgan_hash_dict', f'{name}: the radius-{r + 1} identifier of atom {x} changed under a '
+                         f'{kind} perturbation outside its {r}-bond ball and the dicts differ from the iterated neighbourhood identifiers', inp)
+            else:
+                ctx.broke('relational', 'locality/_morgan_hash_dict', f'{name}: radius-{r + 1} identifier of atom {x} changed under a '
+                          f'{kind} perturbation outside its {r}-bond ball (harness perturbation wrong?)')
+    if cases and any(k == 'inside' for *_, k in cases) and changed_inside == 0:
+        ctx.broke('relational', 'locality/_morgan_hash_dict', 'no perturbation at distance exactly r changed an identifier of r '
+                  'rounds: the locality stream is not looking at the identifiers')
+
+
 def probe(inp):
     """Re-execute ONE input on the real code: does the property fail on it?"""
     kind = inp.get('kind')
@@ -1442,6 +1542,13 @@ def probe(inp):
         what = forward_property(mol, meth, full, v)
         return bool(what), (f'{inp["smiles"]}.{meth}(*{inp["args"]}, **{inp["kwargs"]}): {what}' if what
                             else 'the call gives the documented result for its effective parameters')
+    if kind == 'locality':
+        mol, _ = wire.ints_to_mol(inp['mol'])
+        mol2, _ = wire.ints_to_mol(inp['mol2'])
+        r, x = inp['radius'], inp['atom']
+        bad = [m for m in (mol, mol2) if {h for d in m._morgan_hash_dict(r, r) for h in d.values()} != oracle_morgan(m, r, r)]
+        return bool(bad), ('_morgan_hash_dict differs from the iterated neighbourhood identifiers' if bad
+                           else 'identifiers are the documented ones on both molecules')
     if kind == 'fold':
         res = list(fold_checks(inp['length'], inp['nab'], inp['hashes']))
         return bool(res), '; '.join(w for _, w in res) or 'folding follows the documented windows and stays below length'
